@@ -203,6 +203,17 @@ def run(ctx):
                            ("string", "a.s", "b.s"), ("bool", "a.b", "b.b"), ("mode", "a.e", "b.e"), ("opts", "a.f", "b.f")]:
             res_t = "bool" if op in ("<", "<=", "==", "!=") else ty
             items.append(("binding", prog.PROP_OF[res_t], "%s %s %s" % (l, op, r), res_t))
+    # ... and every UNARY operator on every kind of operand, every binary operator on MIXED operand kinds, as a value that is only logged (no property type in the way):
+    # whatever the checker admits, C++ has to take
+    kinds = [("a.i", "int"), ("a.u", "uint"), ("a.d", "double"), ("a.b", "bool"), ("a.s", "string"), ("a.e", "mode"), ("a.f", "opts"), ("a.lv", "level"), ("a.next", "vobj"), ("a.names", "strlist")]
+    for op in ("~", "-", "+", "!"):
+        for (x, _) in kinds:
+            items.append(("handler", "onFired", "console.log(%s%s)" % (op, x), None))
+            items.append(("handler", "onFired", "{ let t = %s%s; console.log(t) }" % (op, x), None))
+    mixed = [(l, op, r) for op in ["+", "-", "*", "/", "&", "|", "^", "<<", ">>", "<", "==", "&&", "||"] for (l, lk) in kinds[:8] for (r, rk) in kinds[:8] if lk != rk]
+    rng.shuffle(mixed)
+    for (l, op, r) in mixed[:(len(mixed) if ctx.tier == "thorough" else 120)]:
+        items.append(("handler", "onFired", "console.log(%s %s %s)" % (l, op, r.replace("a.", "b.")), None))
     for f in ("Math.max", "Math.min"):
         for (ty, l, r) in [("int", "a.i", "b.i"), ("int", "a.i", "3"), ("int", "a.i", "3000000000"), ("int", "2", "a.i"), ("uint", "a.u", "3"), ("uint", "a.u", "4294967296"),
                            ("double", "a.d", "2.5"), ("double", "a.d", "b.d"), ("string", "a.s", "b.s")]:
@@ -243,7 +254,7 @@ def run(ctx):
     # ---- 2. documents: the accepted programs packed with many bindings per object, colliding prefixes, > 32 and > 64 bindings
     docs = []
     # constructs of the listed findings go into documents of their own, so that the packed documents are judged as a whole
-    suspect = re.compile(r"Math\.(max|min)\(|%|\.[ef]\b[^;\n]*[&|^]|[&|^][^;\n]*\.[ef]\b")
+    suspect = re.compile(r"Math\.(max|min)\(|%|\.[ef]\b[^;\n]*[&|^]|[&|^][^;\n]*\.[ef]\b|~\s*\(?\s*\w+\.(e|f|lv)\b")
     pool = [it for it in accepted if not suspect.search(it[2])]
     alone = [it for it in accepted if suspect.search(it[2])]
     ctx.coverage["programs_compiled_alone"] = len(alone)
@@ -422,7 +433,9 @@ def classify_known(src, err):
         return "minmax_operands_of_different_cxx_types"
     if "%" in src and re.search(r"invalid operands of types .*double.* to binary .operator%", err):
         return "modulo_on_double"
-    if re.search(r"[&|^]", src) and re.search(r"invalid conversion from .int. to .\w+::\w+", err):
+    if re.search(r"[&|^~]", src) and re.search(r"invalid conversion from .int. to .\w+::\w+", err):
+        return "bitwise_operator_on_plain_enums"
+    if "~" in src and re.search(r"no match for .operator~. \(operand type is .\w+::\w+.\)", err):
         return "bitwise_operator_on_plain_enums"
     if "[" in src and re.search(r"narrowing conversion of .-?\d+. from .(long int|int|long unsigned int). to .(int|unsigned int|uint).", err):
         return "integer_constant_outside_element_type_in_list"
